@@ -1,7 +1,107 @@
+(* C10 -- a dying loky worker yields a prompt error, never a hang, and workers heal.   PARTIAL.
+
+   Model M10b (Model/LokyExec.v): the failure-handling logic of loky's _ExecutorManagerThread
+   (wait_result_broken_or_wakeup / process_result_item / terminate_broken / flag_executor_shutting_down),
+   ProcessPoolExecutor.submit, get_reusable_executor, LokyBackend.abort_everything and the part of
+   Parallel that reacts to a failed future.  Every theorem quantifies over ALL event sequences
+   (submissions, manager iterations, worker steps, deaths at any time, shutdowns) -- by induction.
+
+   NOT proved (outside any Coq model): that the OS makes a dead worker's sentinel readable, pipe
+   semantics, latency, fairness of the manager thread.  NOT proved although in the model:
+   C10_one_call_per_fault (only its ingredients C10_heal and C10_exit_submit_raises; the count itself is
+   sampled by the fault-injection harness), and that the manager never dies of KeyError in
+   add_call_item_to_queue.  The full property is REFUTED for one kill instant: C10_midsend_refuted (F27).
+
+   This file contains only the property theorems; proofs are in Proofs/Loky*.v. *)
 From Coq Require Import ZArith List Bool Arith.
-Require Import JV.Model.LokyExec JV.Proofs.LokyExec.
+Require Import JV.Model.LokyExec JV.Proofs.LokyExec JV.Proofs.LokyExec2 JV.Proofs.LokyExec3 JV.Proofs.LokyPool.
 Import ListNotations.
 
-Theorem C10_midsend_witness : mgr (run (new_exec 2 5 0) midsend_trace) = Stuck /\
-                      futs (run (new_exec 2 5 0) midsend_trace) 0 = FRunning.
-Proof. exact midsend_stuck. Qed.
+(* reachable e : e = run (new_exec mw qc pid0) evs for some parameters and some event list *)
+
+(* When the manager wakes up with only a dead worker's sentinel to read, the executor is flagged
+   broken and shut down, the manager exits, every worker is killed, and NO future is left pending:
+   each unfinished one now holds TerminatedWorkerError, each finished one keeps what it held. *)
+Theorem C10_fail_all : forall e, reachable e -> sees_only_sentinel e ->
+  let e' := step e ManagerWake in
+  broken e' = Some TerminatedWorkerError /\ shutdown e' = true /\ mgr e' = Exited /\ pending e' = [] /\ procs e' = [] /\
+  (forall id, id < nfut e -> finished (futs e id) = false -> futs e' id = FExc (PoolError TerminatedWorkerError)) /\
+  (forall id, finished (futs e id) = true -> futs e' id = futs e id) /\
+  (forall id, id < nfut e' -> finished (futs e' id) = true).
+Proof. exact fail_all. Qed.
+
+Example C10_fail_all_satisfiable :
+  let e := run (new_exec 2 5 0) [Submit; Submit; Submit; Feed; ManagerWake; Feed; Take 0; Take 1; Result 1 7; ManagerWake;
+                                 Feed; Die 0] in
+  sees_only_sentinel e /\ futs e 0 = FRunning /\ futs e 1 = FResult 7 /\ futs e 2 = FRunning /\
+  futs (step e ManagerWake) 0 = FExc (PoolError TerminatedWorkerError) /\ futs (step e ManagerWake) 1 = FResult 7.
+Proof. vm_compute. repeat split; reflexivity. Qed.
+
+(* Whatever happened before, in whatever order: once the manager thread has exited no future is
+   unfinished (so a caller waiting on futures is never left waiting by an exited manager) ... *)
+Theorem C10_exit_all_finished : forall e, reachable e -> mgr e = Exited ->
+  forall id, id < nfut e -> finished (futs e id) = true.
+Proof. exact exit_all_finished. Qed.
+
+(* ... and every later submission raises instead of queueing work nobody will run *)
+Theorem C10_exit_submit_raises : forall e, reachable e -> mgr e = Exited -> exists x, submit e = (e, SRaise x).
+Proof. exact exit_submit_raises. Qed.
+
+(* "or its earlier result": a finished future never changes again, over all continuations *)
+Theorem C10_results_stable : forall e evs id, reachable e -> id < nfut e -> finished (futs e id) = true ->
+  futs (run e evs) id = futs e id.
+Proof. exact results_stable. Qed.
+
+(* the bookkeeping of futures stays consistent over all event sequences: pending = the unfinished
+   futures, without duplicates; hence set_exception/set_result never hit a finished future
+   (no InvalidStateError in terminate_broken / process_result_item / flag_executor_shutting_down) *)
+Theorem C10_bookkeeping : forall e, reachable e -> wf e.
+Proof. exact reachable_wf. Qed.
+
+(* A call one of whose futures was failed (by C10_fail_all: every future unfinished when the death is
+   handled) can only end by raising: over all continuations it is either still running with that
+   failed future, or it ended with ORaise -- it never returns a result list. *)
+Theorem C10_no_partial : forall evs s, pinv s -> doomed s ->
+  (doomed (prun s evs) /\ outcomes (prun s evs) = outcomes s) \/
+  (exists evs1 ev evs2 x, evs = evs1 ++ ev :: evs2 /\ outcomes (prun s (evs1 ++ [ev])) = ORaise x :: outcomes s /\
+                          outcomes (prun s evs1) = outcomes s).
+Proof. exact no_partial. Qed.
+
+(* pinv holds of every pool state reachable from the initial one *)
+Theorem C10_pool_invariant : forall evs mw qc, pinv (prun (init_pool mw qc) evs).
+Proof.
+  intros evs mw qc. assert (P0 : pinv (init_pool mw qc)) by reflexivity.
+  revert P0. generalize (init_pool mw qc). induction evs as [|ev t IH]; intros s P; [exact P|].
+  apply IH. apply pinv_step. exact P.
+Qed.
+
+Example C10_no_partial_satisfiable :
+  let s := prun (init_pool 2 5) [CallBegin 3; Dispatch; Dispatch; Dispatch; Ex Feed; Ex ManagerWake; Ex Feed;
+                                 Ex (Take 0); Ex (Take 1); Ex (Result 1 7); Ex ManagerWake; Ex Feed; Ex (Die 0);
+                                 Ex ManagerWake] in
+  doomed s /\ outcomes (prun s [Poll; Ex Feed; Ex ManagerWake; AbortJoin]) = [ORaise (PoolError TerminatedWorkerError)].
+Proof.
+  cbn zeta. split; [|vm_compute; reflexivity].
+  eexists _, _, 0, _. vm_compute. repeat split; try reflexivity. left; reflexivity.
+Qed.
+
+(* get_reusable_executor never hands back a broken or shut-down executor: when it returns, the
+   executor is pristine (not broken, not shut down, no process yet, no fault), its pids start beyond
+   every pid of the old one, and the old manager thread is gone *)
+Theorem C10_heal : forall s e s', cur s = Some e -> (broken e <> None \/ shutdown e = true) ->
+  get_reusable s = (s', true) ->
+  exists e', cur s' = Some e' /\ e' = new_exec (p_maxw s) (p_qcap s) (pidc e) /\
+             broken e' = None /\ shutdown e' = false /\ procs e' = [] /\ faulted e' = false /\ mgr e' = NotStarted /\
+             mgr_gone e = true.
+Proof. exact heal. Qed.
+
+(* REFUTED instant (finding F27): a worker killed after writing part of its result message.
+   Full statement that fails:  forall reachable e with a dead worker in procs, the manager eventually
+   flags the executor broken and fails every pending future.
+   Witness: the manager blocks in recv() for ever; for ALL continuations future 0 stays running and the
+   executor is never flagged broken although a process of the executor is dead. *)
+Theorem C10_midsend_refuted :
+  let e := run (new_exec 2 5 0) midsend_trace in
+  reachable e /\ (exists p, wk e p = WDead /\ In p (procs e)) /\
+  forall evs, mgr (run e evs) = Stuck /\ futs (run e evs) 0 = FRunning /\ broken (run e evs) = broken e.
+Proof. exact midsend_refuted. Qed.
